@@ -9,8 +9,18 @@ def ofErr : Err → SExp
   | .valueError => .list [.atom "raised", .atom "ValueError"]
   | .keyError => .list [.atom "raised", .atom "KeyError"]
 
+/-- the property speaks of atom order, bonded pairs and orders - not of the order in which a
+    node's neighbours are listed: adjacency rows are sorted by neighbour id before comparing -/
+def sortRow (row : List (Int × List (Nat × Label))) : List (Int × List (Nat × Label)) :=
+  let rec ins (x : Int × List (Nat × Label)) : List (Int × List (Nat × Label)) → List (Int × List (Nat × Label))
+    | [] => [x]
+    | y :: ys => if x.1 ≤ y.1 then x :: y :: ys else y :: ins x ys
+  row.foldr ins []
+
+def canonAdj (g : Graph) : Graph := { g with adj := g.adj.map fun r => (r.1, sortRow r.2) }
+
 def ofOut : Except Err Graph → SExp
-  | .ok g => ofGraph g
+  | .ok g => ofGraph (canonAdj g)
   | .error e => ofErr e
 
 /-- implementation output: a graph or `(raised <Kind>)`; kinds other than ValueError are all
